@@ -50,6 +50,7 @@ struct call {
     bool waited;            /* was seen in a waiting list during the call */
     uint64_t first_arr; double first_et;   /* arrival number / entry time of its first waiting-list entry */
     bool granted_flag;
+    bool obs_changed;       /* conditions: the set of observed guards changed while waiting */
 };
 
 struct P {
